@@ -62,6 +62,9 @@ type c07prog struct {
 	timer    bool     // runs on the mock clock; the policy advances it when nothing else can happen
 	results  map[string]map[string]int
 	thorough bool // only in the thorough tier
+	// errPending: the first request of this node is answered with an error and a handler channel on which
+	// the driver never sends anything: the token waits for the decision (flow.go, `<-res.handler`)
+	errPending string
 }
 
 type c07case struct {
@@ -150,6 +153,9 @@ func c07programs() []c07prog {
 			h := g.Add("intermediateThrowEvent", "H1", "")
 			h.Defs = sig("s9")
 			g.Wrap(g.Seq(g.Task("task", "A", ""), eng.Frag{Entry: h, Exit: h}, g.Task("task", "B", "")))
+		}},
+		{name: "errhandler", pts: 12, errPending: "A", build: func(g *eng.Graph) {
+			g.Wrap(g.Seq(g.Task("task", "A", ""), g.Task("task", "B", "")))
 		}},
 		// thorough only: nestings
 		{name: "subpar", pts: 70, thorough: true, build: func(g *eng.Graph) {
@@ -284,6 +290,9 @@ func c07snapshot() []c07g {
 	}
 	return out
 }
+
+// handler channels the driver keeps and never writes to
+var c07held []chan bpmn.ErrHandler
 
 func c07cpu() time.Duration {
 	var ru syscall.Rusage
@@ -500,6 +509,7 @@ func c07run(out *rec.Out, c c07case, rng *rec.Rng, stats map[string]int) {
 	sigs := append([]string(nil), p.signals...)
 	advanced := false
 	short := false
+	handlerPending := false
 	for steps := 0; steps < 200 && !cancelled.Load() && !startBlocked; steps++ {
 		if !in.Quiesce(3 * time.Second) {
 			if cancelled.Load() {
@@ -514,6 +524,18 @@ func c07run(out *rec.Out, c c07case, rng *rec.Rng, stats map[string]int) {
 		// boundaryfire: the signal goes first while the host task is pending
 		if pd := in.Pending(); len(pd) > 0 && !(p.name == "boundaryfire" && len(sigs) > 0) {
 			q := pd[0]
+			if p.errPending == q.Node && q.Occ == 1 {
+				// error + handler channel, decision withheld: the harness keeps the channel and never sends
+				hold := make(chan bpmn.ErrHandler)
+				c07held = append(c07held, hold)
+				in.Op("answer %s %d errpending", q.Node, q.Occ)
+				q.Done = true
+				if !eng.DoWithDeadline(q.Trace, 3*time.Second, bpmn.DoWithErrHandle(fmt.Errorf("boom"), hold)) {
+					in.Note("obs ret do %s %d blocked", q.Node, q.Occ)
+				}
+				handlerPending = true
+				continue
+			}
 			res := p.results[q.Node]
 			if p.name == "loop" {
 				res = map[string]int{"c1": q.Occ}
@@ -532,7 +554,8 @@ func c07run(out *rec.Out, c c07case, rng *rec.Rng, stats map[string]int) {
 			clk.Add(5 * time.Second)
 			continue
 		}
-		short = true
+		// a token waiting for an error-handler decision: the instance is not over
+		short = !handlerPending
 		break
 	}
 	if !cancelled.Load() {
